@@ -107,7 +107,16 @@ class SymExec:
         self.local_defs = {}            # nested `def` statements seen so far: name -> FunctionDef
         # module-level constants (NAME = literal / tuple of literals, assigned once) and the names the
         # function binds itself (which shadow them)
-        self.module_consts = module_constants(func.module)
+        self.module_consts = dict(module_constants(func.module))
+        # constants imported by name from another module of the package (from pkg.pulse import END_1)
+        for st_ in func.module.tree.body:
+            if isinstance(st_, ast.ImportFrom):
+                src_ = ctx.model.modules.get((st_.module or '').split('.')[-1])
+                if src_ is not None and src_ is not func.module:
+                    sc_ = module_constants(src_)
+                    for a_ in st_.names:
+                        if a_.name in sc_ and (a_.asname or a_.name) not in self.module_consts:
+                            self.module_consts[a_.asname or a_.name] = sc_[a_.name]
         self.local_names = set(func.all_params) | {n.id for n in ast.walk(func.node) if isinstance(n, ast.Name)
                                                    and isinstance(n.ctx, (ast.Store, ast.Del))}
         self.class_consts = class_constants(ctx, func.cls) if func.cls is not None else {}
@@ -712,6 +721,10 @@ class SymExec:
         on every path (also the one with zero iterations) - the same closed form a
         sum(E(x) for x in IT) gives.  Only when every path through the body adds the same E once."""
         names = {n.id for st in loop.body for n in ast.walk(st) if isinstance(n, ast.Name) and isinstance(n.ctx, ast.Store)}
+        # (counters handed out with next(c) in the body count as well: c = c + 1 per call)
+        cn_ = self._counter_names()
+        names |= {n.args[0].id for st in loop.body for n in ast.walk(st) if isinstance(n, ast.Call) and isinstance(n.func, ast.Name)
+                  and n.func.id == 'next' and len(n.args) == 1 and isinstance(n.args[0], ast.Name) and n.args[0].id in cn_}
         entered = [b for b in after_paths if b.conds[:len(before.conds)] == before.conds and
                    len(b.conds) > len(before.conds) and b.conds[len(before.conds)][0] == 'loop']
         # lists filled in the loop body: what one iteration appended stands for "each element"
@@ -2263,8 +2276,14 @@ def module_constants(module):
         return False
     # tables (tuples) and strings always; plain numbers only under private names: public numeric
     # constants (mu_0, epsilon_0 ...) are physical quantities that formulas refer to by name
+    def whole(v):
+        # (whole numbers under public names are indices / counts / signs - END_1 = 0, SGN_REVERSE = -1 -, not physics)
+        if isinstance(v, ast.UnaryOp):
+            v = v.operand
+        return isinstance(v, ast.Constant) and isinstance(v.value, int) and not isinstance(v.value, bool)
     out = {nm: v for nm, v in vals.items() if counts.get(nm) == 1 and literal(v) and
-           (isinstance(v, ast.Tuple) or (isinstance(v, ast.Constant) and isinstance(v.value, str)) or nm.startswith('_'))}
+           (isinstance(v, ast.Tuple) or (isinstance(v, ast.Constant) and isinstance(v.value, str)) or nm.startswith('_')
+            or whole(v))}
     # tables kept as dicts with literal keys and values (NAME = dict(a=(1, 2), ...) / {...}), never changed in the module
     for nm, v in vals.items():
         if counts.get(nm) != 1 or nm in out:
